@@ -76,7 +76,8 @@ Proof. exact (conj forms_grid (conj forms_special forms_reform)). Qed.
 
 (* (c)(d) operators, every FloatOps instance (binary64: all floats; ideal: all reals):
    comparisons are the comparisons of the JDEs, == is |difference| < TOL, != its negation;
-   Epoch - Epoch is the difference; Epoch +/- x is Epoch(jde +/- x); x + Epoch = Epoch + x *)
+   Epoch - Epoch is the difference; Epoch +/- x is Epoch(jde +/- x); x + Epoch = Epoch + x;
+   the in-place forms += / -= return what + / - return *)
 Theorem C02_operators : forall (F : Type) (fo : FloatOps F) (a b : F),
   Epoch___lt__ fo (epg a) (epg b) = VBool (f_ltb fo a b) /\
   Epoch___gt__ fo (epg a) (epg b) = VBool (f_ltb fo b a) /\
@@ -91,22 +92,30 @@ Theorem C02_operators : forall (F : Type) (fo : FloatOps F) (a b : F),
   Epoch___add__ fo (epg a) (VFloat b) = mkEg fo [VFloat (f_add fo a b)] /\
   Epoch___sub__ fo (epg a) (VFloat b) = mkEg fo [VFloat (f_sub fo a b)] /\
   Epoch___radd__ fo (epg a) (VFloat b) = Epoch___add__ fo (epg a) (VFloat b) /\
+  Epoch___iadd__ fo (epg a) (VFloat b) = Epoch___add__ fo (epg a) (VFloat b) /\
+  Epoch___isub__ fo (epg a) (VFloat b) = Epoch___sub__ fo (epg a) (VFloat b) /\
+  (forall n, Epoch___iadd__ fo (epg a) (VInt n) = Epoch___add__ fo (epg a) (VInt n)) /\
+  (forall n, Epoch___isub__ fo (epg a) (VInt n) = Epoch___sub__ fo (epg a) (VInt n)) /\
   (forall n, Epoch___add__ fo (epg a) (VInt n) = mkEg fo [VFloat (f_add fo a (f_of_Z fo n))]) /\
   (forall n, Epoch___sub__ fo (epg a) (VInt n) = mkEg fo [VFloat (f_sub fo a (f_of_Z fo n))]) /\
   (forall v, not_comparable v -> Epoch___lt__ fo (epg a) v = VErr TypeError /\
                                  Epoch___eq__ fo (epg a) v = VErr TypeError /\
-                                 Epoch___add__ fo (epg a) v = VErr TypeError).
+                                 Epoch___add__ fo (epg a) v = VErr TypeError /\
+                                 Epoch___iadd__ fo (epg a) v = VErr TypeError /\
+                                 Epoch___isub__ fo (epg a) v = VErr TypeError).
 Proof.
   intros. repeat apply conj.
   - apply lt_ee. - apply gt_ee. - apply le_ee. - apply ge_ee. - apply eq_ee. - apply ne_ee.
   - apply lt_ef. - apply gt_ef. - apply eq_ef. - apply sub_ee. - apply add_ef. - apply sub_ef.
-  - apply radd_ef. - intro; apply add_ei. - intro; apply sub_ei.
+  - apply radd_ef. - apply iadd_ef. - apply isub_ef. - intro; apply iadd_ei. - intro; apply isub_ei.
+  - intro; apply add_ei. - intro; apply sub_ei.
   - intros v Hv. destruct (cmp_type_error fo a v Hv) as (H1 & _ & _ & _ & H5 & _).
-    destruct (add_type_error fo a v Hv) as (H7 & _). auto.
+    destruct (add_type_error fo a v Hv) as (H7 & _ & _ & H8 & H9). auto.
 Qed.
 
 (* (c) binary64, grid 175 years x 12 month starts x 3 fractions x 16 offsets (|x| <= 1e6, int and
-   float): whenever jde +/- x stays in [0, 5.4e6]: (e + x) - e = x and e - (e - x) = x to 1e-8 day *)
+   float): whenever jde +/- x stays in [0, 5.4e6]: (e + x) - e = x and e - (e - x) = x to 1e-8 day,
+   and e += x / e -= x / x + e give the same Epoch as e + x / e - x (see add_ok, sub_ok) *)
 Theorem C02_arith_grid :
   (forall k m fr x, 0 <= k < 153 -> In m months -> In fr fracs3 -> In x offsets ->
      arith_ok (jde_of (jdn (year_k k) m 1) + fr)%float x) /\
